@@ -27,7 +27,8 @@ EXTENDS FragDocs
 
 CONSTANTS MaxDepth,   \* MaxResolveDepth of the model (100 in ggql)
           Dv,         \* deviations in force
-          Rich        \* document space: flat fragment bodies only, or one more level
+          Rich,       \* document space: flat fragment bodies only, or one more level
+          Three       \* the three-fragment space (FragDocs!Docs3) instead
 VARIABLES doc, stack, st
 vars == <<doc, stack, st>>
 
@@ -36,7 +37,7 @@ Top == stack[Len(stack)]
 Push(fr) == stack' = Append([stack EXCEPT ![Len(stack)].sels = Tail(@)], fr)
 Skip == stack' = [stack EXCEPT ![Len(stack)].sels = Tail(@)]
 
-Init == doc \in Docs(Rich) /\ stack = <<>> /\ st = "new"
+Init == doc \in (IF Three THEN Docs3 ELSE Docs(Rich)) /\ stack = <<>> /\ st = "new"
 Start == /\ st = "new"
          /\ IF "FragCycleUnbounded" \notin Dv /\ HasSpreadCycle(doc)
             THEN st' = "refused" /\ stack' = stack
@@ -58,7 +59,7 @@ Spec == Init /\ [][Next]_vars
 
 \* longest chain of calls that do not decrement the counter, in an acyclic document of this space:
 \* inline in the body, spread, inline in the fragment, spread, inline in the other fragment
-NoDecChain == 5
+NoDecChain == 7
 Bound == (MaxDepth + 1) * (NoDecChain + 1)
 DepthBounded == Len(stack) <= Bound
 \* exploration stops a little above the bound (only matters under the deviation)
